@@ -51,6 +51,16 @@ Lemma src_cap_ok es cap :
   = Ret (VN (if es =? 0 then USIZE_MAX else cap)).
 Proof. unfold call_fn. rsimpl. destruct (es =? 0); rsimpl; reflexivity. Qed.
 
+(* RawVec::current_layout, the layout handed to realloc and dealloc: none without a buffer, else the
+   WHOLE buffer, cap elements (not the initialised prefix) *)
+Lemma src_current_layout_ok es ea cap : es * cap < W ->
+  call_fn src_fns [("self", VRec [("cap", VN cap)]); ("size_of_T", VN es); ("align_of_T", VN ea)] "current_layout" []
+  = Ret (if cap =? 0 then VNone else VSome (vlayout (mkLayout (es * cap) ea))).
+Proof.
+  intros H. unfold call_fn. rsimpl. destruct (cap =? 0); rsimpl; [reflexivity|].
+  replace (es * cap <? W) with true by (symmetry; apply N.ltb_lt; exact H). rsimpl. reflexivity.
+Qed.
+
 (* the inlined shortcut of {fallible,infallible}_reserve_internal: "there is room already" is
    `cap().wrapping_sub(used) >= extra` — the test of VecModel.try_reserve (capv is what cap() returns) *)
 Lemma src_reserve_has_room_ok capv used extra strat :
